@@ -35,6 +35,14 @@ PLAN = {
               "lemma: a slot that is not None is held by a live handle or by TX/RX",
         note="alloc_frame is proved per storage size N (configurations enumerated), not for symbolic N",
     ),
+    "C04": dict(
+        verus=[], kani=["frame_build", "slots"], level="proof",
+        claim="frames built by the real CreatedFrame/FrameBox/SendableFrame code equal an independent encoder (Kani): Ethernet header, EtherCAT length header, "
+              "each datagram's command code, address, length, payload, zero padding, zero counter/IRQ, 'more follows' on all but the last; refusal (TooLong) "
+              "changes nothing; fill-the-rest pushes are cut to what fits and say so. Command::code/pack and the PduHeader/PduFlags/frame header wire layouts are "
+              "complete (loop-free, full domain); the frame-building harnesses are bounded stand-ins (DATA=64, <=2 datagrams + fill)",
+        note="bounded in frame size and datagram count (stated under bounded_not_counted_as_proved); unbounded Verus contract for push_pdu not built",
+    ),
     "C05": dict(
         verus=[], kani=["rx", "storage", "slots"], level="proof",
         claim="receive_frame on arbitrary bytes: totality, Ignored/Err leave buffers and markers untouched, strangers ignored, unmatched index never accepted "
